@@ -11,8 +11,10 @@ from vf.chk import And, Or, Not, Implies, Iff, If
 
 
 class FakeOSPath:
-    def __init__(self, exists, events):
-        self._exists, self._events = exists, events
+    """destination state: `occupied` (a directory entry exists: file, symlink or dangling symlink)
+    and `dangling` (the entry is a symlink whose target does not exist)"""
+    def __init__(self, exists, events, dangling=False):
+        self._exists, self._events, self._dangling = exists, events, dangling
 
     def lexists(self, p):
         self._events.append(('lexists', p))
@@ -20,7 +22,10 @@ class FakeOSPath:
 
     def exists(self, p):
         self._events.append(('exists', p))
-        return self._exists
+        return self._exists & ~self._dangling if isinstance(self._exists, symx.SymBool) or isinstance(self._dangling, symx.SymBool) \
+            else (self._exists and not self._dangling)
+
+    isfile = exists
 
     def __getattr__(self, n):
         import os
@@ -28,8 +33,8 @@ class FakeOSPath:
 
 
 class FakeOS:
-    def __init__(self, exists, events):
-        self.path = FakeOSPath(exists, events)
+    def __init__(self, exists, events, dangling=False):
+        self.path = FakeOSPath(exists, events, dangling)
         self._events = events
 
     def remove(self, p):
@@ -133,6 +138,7 @@ def h_write(fmt, fail_kind, n, pos, api, bad_option, m):
     import shutil
     import tempfile
     exists = m.boolean('exists')
+    dangling = m.boolean('dangling')
     overwrite = m.boolean('overwrite')
     regs = _pool(fail_kind, n, pos)
     kw = {}
@@ -161,11 +167,18 @@ def h_write(fmt, fail_kind, n, pos, api, bad_option, m):
         try:
             target = os.path.join(d, 'dest.' + ext)
             sentinel = b'PRECIOUS USER DATA\n'
-            if exists:
+            is_dangling = bool(exists and dangling) and fmt != 'fits'
+            if is_dangling:
+                os.symlink(os.path.join(d, 'missing-target'), target)
+                sentinel = ('link', os.readlink(target))
+            elif exists:
                 with open(target, 'wb') as f:
                     f.write(sentinel)
             raised = call(target)
-            now = open(target, 'rb').read() if os.path.lexists(target) else None
+            if is_dangling:
+                now = ('link', os.readlink(target)) if os.path.islink(target) and not os.path.exists(target) else 'changed'
+            else:
+                now = open(target, 'rb').read() if os.path.lexists(target) else None
             if exists and not ow:
                 m.require('existing destination without overwrite raises', raised is not None)
                 if not will_fail:
@@ -185,7 +198,7 @@ def h_write(fmt, fail_kind, n, pos, api, bad_option, m):
     events = []
     mod = importlib.import_module(f'regions.io.{fmt}.write')
     if fmt in ('ds9', 'crtf'):
-        m.shim(mod, 'os', FakeOS(exists, events))
+        m.shim(mod, 'os', FakeOS(exists, events, dangling))
         m.shim(mod, 'open', lambda name, mode='r', *a, **k: FakeFile(events, name, mode))
     else:
         class _F:
@@ -313,7 +326,7 @@ META = {
     'bounds': {'quick': {'fault schedule': 'destination-exists bit and overwrite flag symbolic (Booleans); failing member in {compound, non-region, '
                                           'unsupported frame} at the first / last position of a 3-list or alone; bad option per format',
                          'path strings': 'symbolic, length <= 12, 8-bit characters, any case'}},
-    'outside_claim': ['real filesystem semantics (symlinks, dangling links, partial writes, gzip content sniffing, get_readable_fileobj, '
+    'outside_claim': ['real filesystem semantics beyond the occupied/dangling bits (partial writes, gzip content sniffing, get_readable_fileobj, '
                       'astropy BinTableHDU.writeto internals): the filesystem is an event-recording stub; content-signature identification '
                       'is stubbed as "no such file"',
                       'sky regions in FITS lists and unsupported shapes are skipped with a warning (not a failure): covered in C12'],
